@@ -980,6 +980,9 @@ func (x *Exec) evalCall(env *SpecEnv, e ECall) Val {
 				}
 				args = append(args, av)
 			}
+			if ct := x.contractFor(fn); ct != nil && ct.Pure {
+				return x.ufCall("lib."+ShortKey(FuncKey(fn)), args, fn.Signature, env.cur)
+			}
 			st := env.cur.clone()
 			st.Guard = tTrue
 			rs := x.inlineCall(st, fn, args, true)
@@ -1042,6 +1045,11 @@ func (x *Exec) evalMethod(env *SpecEnv, e EMethod) Val {
 							}
 							args = append(args, av)
 						}
+						if ct := x.contractFor(fn); ct != nil && ct.Pure {
+							// a function under a "pure" contract is the same uninterpreted
+							// function of its arguments in specifications as at its call sites
+							return x.ufCall("lib."+ShortKey(FuncKey(fn)), args, fn.Signature, env.cur)
+						}
 						st := env.cur.clone()
 						st.Guard = tTrue
 						rs := x.inlineCall(st, fn, args, true)
@@ -1099,6 +1107,9 @@ func (x *Exec) evalMethod(env *SpecEnv, e EMethod) Val {
 							av = x.coerce(av, fn.Params[i+1].Type())
 						}
 						args = append(args, av)
+					}
+					if ct := x.contractFor(fn); ct != nil && ct.Pure {
+						return x.ufCall("lib."+ShortKey(FuncKey(fn)), args, fn.Signature, env.cur)
 					}
 					st := env.cur.clone()
 					st.Guard = tTrue
